@@ -787,3 +787,101 @@ func inlinedCells(E *Effects, fn *ssa.Function, site ssa.CallInstruction, callee
 	})
 	return out, okAll
 }
+
+// c08R8: the items of package pub (posts, actors, activities, collections,
+// links, failures) are shared without a lock: between the pages of the history,
+// between the loader goroutines, which call their methods outside State.m, and
+// the renderer. That is only safe because an item is never written after its
+// constructor has returned it. Every store into a field of an item type must
+// therefore target the object that the enclosing constructor has just
+// allocated (a fresh local of the outermost enclosing function, possibly
+// captured by the constructor's own goroutines, which it joins before
+// returning — R5). A method that assigns to its receiver, or a function that
+// assigns through a pointer it was given, writes shared memory.
+func c08R8(c *Ctx) {
+	P := c.P
+	itemTypes := map[string]bool{"Post": true, "Actor": true, "Activity": true, "Collection": true, "Link": true, "Failure": true}
+	isItemPtr := func(t types.Type) (string, bool) {
+		p, ok := t.Underlying().(*types.Pointer)
+		if !ok {
+			return "", false
+		}
+		n, ok := p.Elem().(*types.Named)
+		if !ok || n.Obj().Pkg() == nil || n.Obj().Pkg().Path() != "servitor/pub" || !itemTypes[n.Obj().Name()] {
+			return "", false
+		}
+		return n.Obj().Name(), true
+	}
+	n := 0
+	for _, fn := range P.FuncsIn("servitor/pub") {
+		fname := FuncName(fn)
+		outer := fn
+		for outer.Parent() != nil {
+			outer = outer.Parent()
+		}
+		eachInstr(fn, func(_ *ssa.BasicBlock, _ int, in ssa.Instruction) {
+			var addr ssa.Value
+			switch x := in.(type) {
+			case *ssa.Store:
+				addr = x.Addr
+			case *ssa.MapUpdate:
+				addr = x.Map
+			default:
+				return
+			}
+			// the innermost item-typed object the address is a field of
+			var obj ssa.Value
+			tname := ""
+			v := addr
+			for i := 0; i < 16 && obj == nil; i++ {
+				switch y := v.(type) {
+				case *ssa.FieldAddr:
+					if tn, ok := isItemPtr(y.X.Type()); ok {
+						obj, tname = y.X, tn
+					}
+					v = y.X
+				case *ssa.IndexAddr:
+					v = y.X
+				case *ssa.UnOp:
+					if y.Op != token.MUL {
+						i = 16
+					}
+					v = y.X
+				default:
+					i = 16
+				}
+			}
+			if obj == nil {
+				return
+			}
+			n++
+			root := resolveCell(unwrapLoad(obj))
+			if ld, ok := root.(*ssa.UnOp); ok && ld.Op == token.MUL {
+				root = resolveCell(ld.X)
+				if w := unwrapLoad(ld); w != ssa.Value(ld) {
+					root = resolveCell(w)
+				}
+			}
+			al, fresh := root.(*ssa.Alloc)
+			okFresh := fresh && al.Parent() == outer && al.Heap
+			if tn, isItem := isItemPtr(al2type(al)); okFresh && (!isItem || tn != tname) {
+				okFresh = false
+			}
+			fld := ""
+			if fa, ok := addr.(*ssa.FieldAddr); ok {
+				fld = "." + fieldOf(fa).Name()
+			}
+			c.check(okFresh, fname+"/item-write:"+tname+fld, P.InstrPos(in), fname,
+				"written while under construction (the object is a fresh allocation of the enclosing constructor)",
+				"a "+tname+" that already exists (receiver, parameter or loaded pointer) is written: items are shared between pages, loader goroutines and the renderer without a lock, so a write after construction is a data race")
+		})
+	}
+	c.info("item_field_writes", n)
+}
+
+func al2type(a *ssa.Alloc) types.Type {
+	if a == nil {
+		return types.Typ[types.Invalid]
+	}
+	return a.Type()
+}
